@@ -80,8 +80,36 @@ def structured(rng):
     return buf, st
 
 
+def chain(rng):
+    """A name reached through a long chain of strictly backward pointers: a (possibly labelled) name, then k bare
+    pointers, each at the previous one (RFC 1035 puts no bound on the number of hops; only on labels and octets).
+    k is drawn around the limits a hop counter would plausibly use (64, 127..130, 255..257) and far beyond."""
+    pre = [rng.randrange(256) for _ in range(rng.choice([0, 12, 13]))]
+    nlab = rng.choice([0, 1, 1, 3, 126, 127])
+    name = []
+    for _ in range(nlab):
+        name += [1, rng.choice([ord('a'), ord('Z'), ord('*')])]
+    buf = pre + name + [0]
+    target = len(pre)
+    k = rng.choice([1, 2, 63, 64, 65, 126, 127, 128, 129, 130, 131, 200, 254, 255, 256, 257, 300, 1000, rng.randint(1, 400)])
+    mixed = rng.random() < 0.3
+    for i in range(k):
+        here = len(buf)
+        if mixed and rng.random() < 0.2 and nlab < 100:
+            buf += [1, ord('x')]                     # a label in front of the next pointer (still backwards)
+        buf += [0xC0 | (target >> 8), target & 0xFF]
+        target = here
+    st = target
+    if rng.random() < 0.1:
+        st = rng.randrange(len(buf))
+    return buf, st
+
+
 def gen(rng, tier):
     quick = tier == "quick"
+    for _ in range(300 if quick else 6000):
+        buf, st = chain(rng)
+        yield f"{rng.choice(['pc', 'pc', 'pc'] + OPS)} {hx(buf)} {min(st, len(buf))}"
     yield from exhaustive(3 if quick else 4, OPS)
     yield from exhaustive(4 if quick else 5, ["pc"])
     n = 20000 if quick else 400000
@@ -121,7 +149,7 @@ CHECK = {
     "exhaustive": {"quick": False, "thorough": False},
     "rule": ("exhaustive buffers over the 12 significant octets {0,1,2,3,62,63,64,BF,C0,C1,FF,'a'} "
              "(len<=3 all six entry points, len<=4 try_from_compressed; thorough: 4 and 5) at every start "
-             "offset 0..len+1, plus seeded structured multi-name buffers (<=600 octets, pointer chains, "
+             "offset 0..len+1, plus long chains of strictly backward pointers (1..1000 hops, around 64/128/256), plus seeded structured multi-name buffers (<=600 octets, pointer chains, "
              "mid-label/forward/self pointers, 63/64-octet labels, 254..256-octet names) and random bytes; "
              "non-trivial = accepted name with >=2 labels (incl. every followed pointer) or rejection by "
              "InvalidPointer/NameTooLong/LabelTooLong/ExtraData; distinct = distinct case line"),
